@@ -147,13 +147,19 @@ def _process_item(kind, head, sub, meta, occ=None):
             text = text2
     # 1. rewrites on the raw text
     for (d, tail, lines) in sub:
-        mm = re.match(r"rewrite(?:x(\d+))?$", d)
+        mm = re.match(r"rewrite(?:x(\d+)|(\*))?$", d)
         if mm:
             t = _ticks(tail)
             if len(t) != 2:
                 raise ExtractError(f"{what}: bad rewrite directive")
             want = int(mm.group(1) or 1)
             got = text.count(t[0])
+            if mm.group(2):
+                # `rewrite*`: std-constant shim, applied wherever (if anywhere) the token occurs
+                if got:
+                    text = text.replace(t[0], t[1])
+                    rec["rewrites"].append(f"`{t[0]}` => `{t[1]}` x{got} (shim)")
+                continue
             if got != want:
                 raise ExtractError(f"{what}: rewrite pattern `{t[0]}` found {got} times, expected {want}")
             text = text.replace(t[0], t[1])
